@@ -9,6 +9,7 @@ def steps_for(corpus, tier):
 
 
 RANDOM = {"name": "random", "n": {"quick": 48, "thorough": 600}}
+SCRIPTED = {"name": "scripted", "n": {"quick": 20, "thorough": 60}, "seed0": 0, "seeded": False}
 
 
 def _cons(e, c):
@@ -244,6 +245,31 @@ def cls_c14(e):
     return out
 
 
+def cls_c17(e):
+    out = []
+    a = e["a"]
+    if a in ("Tx:ChanOpenTry", "Tx:ChanOpenConfirm", "Tx:ChanOpenInit", "Tx:ChanOpenAck") and "order" in e["args"]:
+        ar = e["args"]
+        dev = "good"
+        if ar["order"] != "ORDER_ORDERED":
+            dev = "unordered"
+        elif ar["version"] != "1":
+            dev = "version"
+        elif ar["cport"] != "consumer":
+            dev = "port"
+        out.append("%s_%s_%s_%s" % (e["chain"] == "p" and "p" or "c", a[3:], dev, _code(e)))
+    if a == "PLaunchOK":
+        r = _cons(e, e["args"]["c"])
+        out.append("launch_%s" % ("on_connection" if r.get("conn") else "new_client"))
+    if a == "PLaunchFail":
+        r = _cons(e, e["args"]["c"])
+        if r.get("conn"):
+            out.append("launch_on_connection_failed")
+    if e["chain"] != "p" and a == "Tx:Recv" and e["res"].get("code") == 0 and any(x.get("type") == "vsc" for x in e["res"].get("recv", [])):
+        out.append("first_vsc" if not e["s"].get("h2id") else "vsc_received")
+    return out
+
+
 def cls_c19(e):
     out = []
     if e["a"] in ("PLaunchFail", "PRemoveFail", "PAllocateFail", "BlockError", "EnvHalt"):
@@ -277,7 +303,7 @@ PROPS = {
     "C01": {
         "level": "model_checking",
         "mc": MC_VSCFLOW,
-        "corpora": [RANDOM],
+        "corpora": [RANDOM, SCRIPTED],
         "invariants": ["C01_Inv"],
         "properties": ["C01_Order", "C01_Diff", "C01_Send", "C01_Launch"],
         "classify": cls_c01,
@@ -289,7 +315,7 @@ PROPS = {
     "C02": {
         "level": "model_checking",
         "mc": MC_ELIG,
-        "corpora": [RANDOM],
+        "corpora": [RANDOM, SCRIPTED],
         "invariants": [],
         "properties": ["C02_Sound", "C02_Complete", "C02_Power", "C02_Key"],
         "classify": cls_c02,
@@ -298,67 +324,73 @@ PROPS = {
         "assumptions": [],
     },
     "C03": {
-        "level": "model_checking", "mc": MC_ELIG, "corpora": [RANDOM], "invariants": [],
+        "level": "model_checking", "mc": MC_ELIG, "corpora": [RANDOM, SCRIPTED], "invariants": [],
         "properties": ["C03_Threshold", "C03_UpdateThreshold", "C03_AutoOptIn", "C03_OptOut", "C03_OptInRecords"],
         "classify": cls_c03, "rule": "Top-N set computations, opt-out attempts and Top-N parameter changes observed in random histories",
         "required_classes": {"quick": ["topN_67", "some_below_threshold", "optout_ok_topN0", "optout_rejected_topN+", "update_shaping_topN+"]}, "assumptions": [],
     },
     "C04": {
-        "level": "model_checking", "mc": MC_CAP, "corpora": [RANDOM], "invariants": [],
+        "level": "model_checking", "mc": MC_CAP, "corpora": [RANDOM, SCRIPTED], "invariants": [],
         "properties": ["C04_Cap", "C04_PowerCap"],
         "classify": cls_c04, "rule": "set computations with a validator-set cap or power cap in force", "required_classes": {"quick": []},
         "assumptions": [],
     },
     "C12": {
-        "level": "model_checking", "mc": MC_VSCFLOW, "corpora": [RANDOM],
+        "level": "model_checking", "mc": MC_VSCFLOW, "corpora": [RANDOM, SCRIPTED],
         "invariants": ["C12_PacketIds", "C12_ConsumerMap"],
         "properties": ["C12_IdStep", "C12_IdPerEpoch", "C12_IdHeight", "C12_ConsumerMapStable"],
         "classify": cls_c12, "rule": "provider blocks (epoch / plain, by epoch length) and consumer blocks by number of distinct ids in the height map",
         "required_classes": {"quick": ["pblock_epoch", "consumer_ids_2"]}, "assumptions": [],
     },
     "C15": {
-        "level": "model_checking", "mc": MC_ELIG, "corpora": [RANDOM], "invariants": [],
+        "level": "model_checking", "mc": MC_ELIG, "corpora": [RANDOM, SCRIPTED], "invariants": [],
         "properties": ["C15_TopM", "C15_Diff", "C15_OnlyThere"],
         "classify": cls_c15, "rule": "provider end-block steps classified by bonded-vs-M and ties; blocks by kind of engine update",
         "required_classes": {"quick": ["bonded_gt_M", "updates_change"]}, "assumptions": [],
     },
-    "C05": {"level": "model_checking", "mc": [], "corpora": [RANDOM], "invariants": ["C05_Injective"],
+    "C05": {"level": "model_checking", "mc": [], "corpora": [RANDOM, SCRIPTED], "invariants": ["C05_Injective"],
             "properties": ["C05_Reject", "C05_Create"], "classify": cls_c05,
             "rule": "key-assignment attempts (by outcome and consumer phase), validator creations (by outcome and kind of key) and blocks by number of assigned keys",
             "required_classes": {"quick": ["AssignKey_ok_launched", "AssignKey_rej_launched", "createval_ok_fresh"]}, "assumptions": []},
-    "C06": {"level": "model_checking", "mc": [], "corpora": [RANDOM], "invariants": ["C06_Attributable", "C06_PruneListed"],
+    "C06": {"level": "model_checking", "mc": [], "corpora": [RANDOM, SCRIPTED], "invariants": ["C06_Attributable", "C06_PruneListed"],
             "properties": ["C06_Free", "C08_Outcome"], "classify": cls_c06,
             "rule": "end-blocks by number of keys scheduled for pruning, assignments by phase, slash packets by kind of key",
             "required_classes": {"quick": ["assign_on_launched", "prune_entries_1"]}, "assumptions": []},
-    "C08": {"level": "model_checking", "mc": [], "corpora": [RANDOM], "invariants": ["C08_Outstanding"],
+    "C08": {"level": "model_checking", "mc": [], "corpora": [RANDOM, SCRIPTED], "invariants": ["C08_Outstanding"],
             "properties": ["C08_Outcome", "C08_Params", "C08_AckCarried", "C08_AckOnlyThere", "C08_FlagCleared"], "classify": cls_c08,
             "rule": "slash packets received by the provider by (infraction, acknowledgement), VSC packets carrying slash acks, consumer blocks with outstanding flags / pending slash packets",
             "required_classes": {"quick": ["slash_downtime_handled", "consumer_slash_pending"]}, "assumptions": []},
-    "C09": {"level": "model_checking", "mc": [], "corpora": [RANDOM], "invariants": ["C09_Window"],
+    "C09": {"level": "model_checking", "mc": [], "corpora": [RANDOM, SCRIPTED], "invariants": ["C09_Window"],
             "properties": ["C08_Outcome", "C09_MeterLeAllowance", "C09_OncePerPeriod", "C09_Standby", "C09_HeadStays", "C09_QueueFifo"], "classify": cls_c09,
             "rule": "as C08 plus provider begin-blocks by meter state and consumer send steps by slash-record state",
             "required_classes": {"quick": ["slash_downtime_handled", "meter_full", "send_waiting"]}, "assumptions": []},
-    "C10": {"level": "model_checking", "mc": [], "corpora": [RANDOM], "invariants": ["C10_InitIffSpawn", "C10_QueueExact"],
+    "C10": {"level": "model_checking", "mc": [], "corpora": [RANDOM, SCRIPTED], "invariants": ["C10_InitIffSpawn", "C10_QueueExact"],
             "properties": ["C10_Ids", "C10_PhaseStep", "C10_PhaseCause", "C10_LaunchWhenDue", "C10_LaunchOutcome", "C01_Launch"], "classify": cls_c10,
             "rule": "lifecycle events: creations, updates by phase, launch attempts by outcome, removals",
             "required_classes": {"quick": ["PLaunchOK", "PLaunchFail", "create_ok_spawn", "create_ok_nospawn", "update_initialized_init"]}, "assumptions": []},
-    "C11": {"level": "model_checking", "mc": [], "corpora": [RANDOM], "invariants": ["C11_DeletedStaysEmpty"],
+    "C11": {"level": "model_checking", "mc": [], "corpora": [RANDOM, SCRIPTED], "invariants": ["C11_DeletedStaysEmpty"],
             "properties": ["C11_NoUpdates", "C11_Stops", "C11_RemoveWhenDue", "C11_Residue"], "classify": cls_c11,
             "rule": "stops by cause, removals by outcome, blocks with stopped consumers present",
             "required_classes": {"quick": ["PRemoveOK", "stopped_present"]}, "assumptions": []},
-    "C13": {"level": "model_checking", "mc": [], "corpora": [RANDOM], "invariants": [],
+    "C13": {"level": "model_checking", "mc": [], "corpora": [RANDOM, SCRIPTED], "invariants": [],
             "properties": ["C13_Frame", "C13_FrameOthers"], "classify": cls_c13,
             "rule": "per-consumer operations executed while at least one other consumer exists, by operation and number of consumers",
             "required_classes": {"quick": ["PQueueVSC_with_2_consumers", "Tx:AssignKey_with_2_consumers"]}, "assumptions": []},
-    "C14": {"level": "model_checking", "mc": [], "corpora": [RANDOM], "invariants": ["C14_TopN"],
+    "C14": {"level": "model_checking", "mc": [], "corpora": [RANDOM, SCRIPTED], "invariants": ["C14_TopN"],
             "properties": ["C14_Owner", "C14_Create", "C14_Authority", "C14_Validator", "C14_RejectedUnchanged"], "classify": cls_c14,
             "rule": "provider messages by (type, kind of sender, outcome)",
             "required_classes": {"quick": ["UpdateConsumer_user_rej", "UpdateConsumer_gov_ok", "OptIn_wrongsigner_rej", "UpdateParams_user_rej", "UpdateParams_gov_ok"]}, "assumptions": []},
-    "C19": {"level": "fault_enumeration", "mc": [], "corpora": [RANDOM], "invariants": ["C19_NoBlockError"],
+    "C17": {"level": "model_checking", "mc": [], "corpora": [SCRIPTED, RANDOM],
+            "invariants": ["C17_ClientInjective", "C17_ChannelInjective", "C17_Attribution"],
+            "properties": ["C17_Try", "C17_Confirm", "C17_InitAck", "C17_BindingsOnlyThere", "C17_ConsumerInit", "C17_FirstVSC"], "classify": cls_c17,
+            "rule": "channel handshake steps by (chain, step, deviation, outcome), launches by kind of client binding, validator-set packets received",
+            "required_classes": {"quick": ["p_ChanOpenTry_unordered_rej", "p_ChanOpenTry_version_rej", "p_ChanOpenTry_port_rej", "p_ChanOpenTry_good_ok", "p_ChanOpenTry_good_rej", "p_ChanOpenConfirm_good_ok", "p_ChanOpenConfirm_good_rej", "p_ChanOpenInit_good_rej", "launch_on_connection_failed"]},
+            "assumptions": ["IBC core (connection/channel/proof verification) is executed, not modelled; completeness of Try acceptance is asserted only for attempts whose IBC-level inputs the scenario made valid"]},
+    "C19": {"level": "fault_enumeration", "mc": [], "corpora": [RANDOM, SCRIPTED], "invariants": ["C19_NoBlockError"],
             "properties": ["C19_LaunchRollback", "C19_RemoveRollback", "C19_AllocateRollback"], "classify": cls_c19,
             "rule": "blocks of every chain, failing consumer operations and failing transactions, by kind",
             "required_classes": {"quick": ["PLaunchFail", "block_p", "block_c"]}, "assumptions": []},
-    "C20": {"level": "model_checking", "mc": [], "corpora": [RANDOM], "invariants": ["C20_OnePending"],
+    "C20": {"level": "model_checking", "mc": [], "corpora": [RANDOM, SCRIPTED], "invariants": ["C20_OnePending"],
             "properties": ["C20_Update", "C20_Apply", "C08_Params"], "classify": cls_c20,
             "rule": "infraction-parameter requests by phase and pending state, begin-blocks by schedule length, punishment steps",
             "required_classes": {"quick": ["infr_update_launched_nopending", "infr_update_registered_nopending"]}, "assumptions": []},
@@ -394,5 +426,7 @@ for _p, _t, _n in [
     ("C20", "immediate vs queued parameter updates, one pending change, application when due, parameters used by punishments", "Fractions are compared as 18-decimal strings."),
 ]:
     MANIFEST_TEXT[_p] = {"text": _GEN + ": " + _t + ".", "note": _n}
+MANIFEST_TEXT["C17"] = {"text": "TLC evaluates binding invariants (consumer/client/channel one-to-one, channel built on the consumer's client) on every recorded provider state and the acceptance rule of every handshake step; a scripted scenario drives every deviation (ordering, ports, version, foreign client, provider-initiated, racing handshakes, repeated attempts, second consumer on the same connection) with real IBC proofs, forged channel ends standing for a compromised consumer.",
+                        "note": "IBC core is executed, not modelled. Launch on a connection whose client is already bound was a defect (F2), fixed by c3beaf4."}
 MANIFEST_TEXT["C19"]["technique"] = "TLC trace validation of every generated history (block errors, rollback frame conditions); fault enumeration via build-tagged failpoints"
 NOT_CLAIMED = {}
